@@ -81,6 +81,10 @@ type scanner struct {
 	// unfinishedLiteral a sign that a literal has been started but not completed.
 	unfinishedLiteral bool
 
+	// unfinishedAnnotationStart a sign that the first byte of `//` or `/*` has been
+	// read but not the second one.
+	unfinishedAnnotationStart bool
+
 	// lengthComputing used when a file contains data after the schema (for example,
 	// in jApi).
 	lengthComputing bool
@@ -189,6 +193,13 @@ func (s *scanner) Next() (lexeme.LexEvent, error) {
 }
 
 func (s *scanner) processTail() (lexeme.LexEvent, error) {
+	if s.unfinishedAnnotationStart {
+		// The text ends after the first byte of `//` or `/*`.
+		err := errors.NewDocumentError(s.file, errors.ErrUnexpectedEOF)
+		err.SetIndex(s.dataSize - 1)
+		return lexeme.LexEvent{}, err
+	}
+
 	if s.stack.Len() == 0 {
 		return lexeme.LexEvent{}, errEOS
 	}
@@ -669,6 +680,7 @@ func (s *scanner) stateNul(c byte) (state, error) {
 }
 
 func (s *scanner) stateAnyAnnotationStart(c byte) (st state, err error) {
+	s.unfinishedAnnotationStart = false
 	switch c {
 	case '/':
 		s.annotation = true
@@ -829,5 +841,6 @@ func (s *scanner) switchToAnnotation() error {
 	}
 	s.returnToStep.Push(s.step)
 	s.step = s.stateAnyAnnotationStart
+	s.unfinishedAnnotationStart = true
 	return nil
 }
